@@ -334,7 +334,7 @@ def strategy():
 
 # ---- every documented form of a dictionary value, in every slot ------------------------------------------------
 
-FORM_VALUES = ['Phospho', 0, 0.0, 1.5, -3, ['Phospho'], [0], ['Phospho', 2.5], 'MOD']   # 'MOD' = a Mod object
+FORM_VALUES = ['Phospho', 0, 0.0, 1.5, -3, ['Phospho'], [0], ['Phospho', 2.5], 'MOD', []]   # 'MOD' = a Mod object; [] = no modifications
 FORM_SLOTS = ['labile', 'unknown', 'nterm', 'cterm', 'internal', 'intervals']
 FORM_BASES = [dict.fromkeys(FORM_SLOTS, ()),
               {'labile': ('Glycan:Hex',), 'unknown': ('Formula:C',), 'nterm': ('Acetyl',), 'cterm': ('Amidated',), 'internal': ('Oxidation',),
